@@ -768,6 +768,9 @@ func (p *process) SendAfter(to any, message any, after time.Duration) (gen.Cance
 		switch t := to.(type) {
 		case gen.Atom:
 			err = p.node.RouteSendProcessID(p.pid, gen.ProcessID{Name: t, Node: p.node.name}, options, message)
+		case string:
+			// Send takes a name given as a string as well
+			err = p.node.RouteSendProcessID(p.pid, gen.ProcessID{Name: gen.Atom(t), Node: p.node.name}, options, message)
 		case gen.PID:
 			err = p.node.RouteSendPID(p.pid, t, options, message)
 		case gen.ProcessID:
